@@ -8,14 +8,15 @@ import vlib, versgen
 
 PYPI_PRE = ["1.0a1", "1.0rc1", "2.0.dev1", "1.1b2", "3.0.0rc1"]
 
-def jobs_for(vecs, ch, K, schemes):
+def jobs_for(vecs, ch, K, schemes, prepos=()):
     jobs = []
     for v in vecs:
         for s in schemes:
             probes = [{"pos": p, "text": ch[s][p]} for p in range(0, 2 * K + 1)]
-            if s == "pypi":
+            if s == "pypi" and not prepos:
                 probes += [{"pos": -2, "text": t} for t in PYPI_PRE]
-            jobs.append({"k": "vers", "scheme": s, "tag": "den", "text": v["texts"][s], "cs": v["cs"], "probes": probes})
+            jobs.append({"k": "vers", "scheme": s, "tag": "den", "text": v["texts"][s], "cs": v["cs"], "probes": probes,
+                         "prepos": list(prepos) if s == "pypi" else []})
     for s in schemes:
         jobs.append({"k": "vers", "scheme": s, "tag": "star", "text": "vers:%s/*" % s, "cs": [],
                      "probes": [{"pos": p, "text": t} for p, t in enumerate(ch[s])] + ([{"pos": -2, "text": t} for t in PYPI_PRE] if s == "pypi" else [])})
@@ -57,6 +58,12 @@ def check(run):
     vecs = versgen.model(run, K)
     rnd = random.Random(run.seed)
     jobs = jobs_for(vecs, ch, K, versgen.SCHEMES)
+    # second family of chains (other spellings: build metadata, prefixes, epochs, case; pypi pre-releases as bounds)
+    ch2 = versgen.chains(run, chain=2)
+    versgen.check_chains(run, exe, ch2)
+    K2 = 3 if quick else 5
+    vecs2 = versgen.model(run, K2, chain=2)
+    jobs += [j for j in jobs_for(vecs2, ch2, K2, versgen.SCHEMES, prepos=versgen.PYPI_PREPOS2) if j["tag"] == "den"]
     if not quick:
         # K = 8 by simulation-like sampling: random alternating shapes over 8 bounds (beyond the exhaustive bound)
         jobs += sampled_k8(ch, rnd, 400)
